@@ -169,6 +169,9 @@ def _same_callee(logged, nm):
 def s_call_count(ex, args, kwargs, st, node):
     from .sym import VInt
     nm = _cname(ex, args[0], st, node)
+    import os as _os
+    if _os.environ.get("PYVC_DEBUG_LOG"):
+        print("LOG", nm, [c.name for c in st.log])
     return VInt(sum(1 for c in st.log if _same_callee(c.name, nm)))
 
 
